@@ -30,6 +30,7 @@ func init() {
 		Run:        runC19})
 
 	addSelfTests("C16",
+		mutation{"memory-listing-stops-at-placeholder", "kv/memory/kv.go", "			if !strings.HasPrefix(key, string(prefix)) {\n				return true\n			}", "			if !strings.HasPrefix(key, string(prefix)) {\n				return true\n			}\n			if v.isDeleted() {\n				return false\n			}", "listing"},
 		mutation{"aof-wrong-case", "kv/aof/mutation.go", "		err = d.memKv.PrefixRemove(context.Background(), mut.GetKey(), mut.GetValue())", "		err = d.memKv.PrefixAppend(context.Background(), mut.GetKey(), mut.GetValue())", "aof-dispatch"},
 		mutation{"aof-wrong-type", "kv/aof/mutation.go", "		mut.Type = proto.MutationType_SIMPLE_DELETE\n", "		mut.Type = proto.MutationType_SIMPLE_PUT\n", "aof-logged-type"},
 		mutation{"sqlite-prefixremove-conflict", "kv/sqlite3/prefix.go", "		_, err := tx.StmtContext(ctx, s.stmts.prefixRemove).Exec(prefix, child)\n		if err != nil {\n			return err\n		}", "		res, err := tx.StmtContext(ctx, s.stmts.prefixRemove).Exec(prefix, child)\n		if err != nil {\n			return err\n		}\n		if n, _ := res.RowsAffected(); n == 0 {\n			return chord.ErrKVPrefixConflict\n		}", "contract"},
@@ -70,7 +71,37 @@ type backend struct {
 
 var backends = []backend{{"memory", "kv/memory", "MemoryKV"}, {"aof", "kv/aof", "DiskKV"}, {"sqlite", "kv/sqlite3", "SqliteKV"}}
 
+// scanCompleteRule: the memory backend enumerates its buckets, keys and prefix children with
+// Range(callback); a callback that returns false stops the WHOLE enumeration, so whatever
+// sorts after the entry it was looking at silently disappears from listings, range
+// selections and exports. Every such callback returns the constant true on every path.
+func scanCompleteRule(c *Ctx, rule string) {
+	n := 0
+	for _, fn := range c.AllFuncs("kv/memory") {
+		for _, call := range fn.Calls(true, func(call *ast.CallExpr) bool {
+			se, ok := call.Fun.(*ast.SelectorExpr)
+			return ok && se.Sel.Name == "Range" && len(call.Args) == 1
+		}) {
+			lit, ok := call.Args[0].(*ast.FuncLit)
+			if !ok {
+				continue
+			}
+			g := fn.enclosing(call).Closure(lit)
+			for _, r := range g.Returns() {
+				if len(r.Results) != 1 {
+					continue
+				}
+				n++
+				v, _ := g.ConstVal(r.Results[0])
+				c.Ob(rule, "memory."+strings.TrimPrefix(strings.TrimPrefix(fn.root().Name, "kv/memory."), "(MemoryKV).")+"#scan-callback-continues", r.Pos(), v == "true", "an enumeration callback always returns true: returning false ends the enumeration of the bucket (or of all buckets), dropping every later entry from the result")
+			}
+		}
+	}
+	c.Floor("memory enumeration callback returns", n, 6)
+}
+
 func runC16(c *Ctx) {
+	scanCompleteRule(c, "listing")
 	// contract: allowed ⊇ returned ⊇ required
 	allowed := map[string][]string{
 		"Put": {"ErrKVSimpleConflict"}, "Delete": {"ErrKVSimpleConflict"}, "Get": {},
